@@ -67,14 +67,14 @@ def sign_cases(chk):
     for (v, m) in [((1 << 63), 1), (U64, 1), (U64, (1 << 63) - 1), ((1 << 63) - 1, (1 << 63) - 1), ((1 << 63), (1 << 63) - 1), (U64, U64), (U64, U64 - 1), ((1 << 63) + 5, (1 << 63))]:
         for exp in (0, -1):
             one(v, m, exp, 0, cls='sign_2_63_guard')
-    for plen in (0, 1, 64, 65, 66, 72, 73, 74):
+    for plen in (0, 1, 64, 65, 66, 72, 73, 74, 96, 97, 98, 104, 105, 106):
         one(r.choice([0, 86]), r.choice([0, 0, 86]), -1, 0, plen=plen, cls='sign_small_buffer_exact')
     # blinding factors 0, n-1, >= n
     for b in (0, 1, N - 1, N, N + 1, (1 << 256) - 1):
         one(r.bits(6), 0, 0, 0, blind=b, cls='sign_blind_ge_n' if b >= N else 'sign_blind_edge')
         one(5, 5, -1, 0, blind=b, cls='sign_blind_ge_n' if b >= N else 'sign_blind_edge')
     # edge-biased parameter sets, kept small (<= 16 bits of mantissa) so that the model side is affordable
-    nsmall = chk.scale(220, 3000)
+    nsmall = chk.scale(170, 3000)
     tries = 0
     while nsmall and tries < 100000:
         tries += 1
@@ -88,7 +88,7 @@ def sign_cases(chk):
             if expected_rings(value, minv, exp, mb) > 16: continue
         rings = (expected_rings(value, minv, exp, mb) + 1) // 2
         cap = 128 * (rings - 1)
-        msg = None if r.chance(1, 4) else r.bytes(r.choice([0, 1, 31, 32, 33, max(cap - 1, 0), cap, cap + 1, cap + 32, r.below(cap + 2)]))
+        msg = None if r.chance(1, 4) else r.bytes(r.choice([cap + 1, cap + 32]) if r.chance(1, 10) else min(cap, r.choice([0, 1, 31, 32, 33, max(cap - 1, 0), cap, cap, r.below(cap + 1)])))
         extra = r.choice([None, b'', r.bytes(1), r.bytes(32), r.bytes(100), r.bytes(r.below(101))])
         one(value, minv, exp, mb, msg=msg, extra=extra, cls='sign_edge_params')
         nsmall -= 1
@@ -141,13 +141,16 @@ def run(chk):
         cap = r.choice([4096, 4096, 0, 1, 33, len(m['msg']), len(m['msg']) + 1]) if not heavy else 4096
         add('rangeproof_rewind %s %s %s %s %s #%d' % (m['nonce'].hex(), com, pf.hex(), ex, g, cap), 'rewind_made', ('rewind', cap))
         if not heavy:
-            add('rangeproof_rewind %s %s %s %s %s -' % (m['nonce'].hex(), com, pf.hex(), ex, g), 'rewind_made_nomsg', ('rewind', None))
+            if r.chance(1, 3): add('rangeproof_rewind %s %s %s %s %s -' % (m['nonce'].hex(), com, pf.hex(), ex, g), 'rewind_made_nomsg', ('rewind', None))
             add('rangeproof_rewind %s %s %s %s %s #64' % (flipbit(m['nonce'], r.below(256)).hex(), com, pf.hex(), ex, g), 'rewind_other_nonce', 'reject')
             add('rangeproof_verify %s %s %s %s' % (com, flipbit(pf, r.below(8 * len(pf))).hex(), ex, g), 'verify_made_bitflip', 'reject')
-            add('rangeproof_verify %s %s %s %s' % (com, pf.hex(), (m['extra'] + b'\x01').hex(), g), 'verify_made_other_extra', 'reject')
+            if r.chance(1, 3): add('rangeproof_verify %s %s %s %s' % (com, pf.hex(), (m['extra'] + b'\x01').hex(), g), 'verify_made_other_extra', 'reject')
             # determinism: the same call again (and with a larger buffer) gives the same bytes
             if r.chance(1, 6): add(line, 'sign_again', ('same', a))
-            if r.chance(1, 6): add(line.replace('#%d ' % m['plen'], '#%d ' % (len(pf)), 1), 'sign_exact_buffer', ('same', a))
+            # buffer exactly as long as the proof / one byte short (exact-value proofs need more room than they use:
+            # the size check of sign_impl counts npub = 2 for them; the model mirrors that, no python expectation)
+            single = not (pf[0] & 64)
+            if r.chance(1, 6): add(line.replace('#%d ' % m['plen'], '#%d ' % (len(pf)), 1), 'sign_exact_buffer', None if single else ('same', a))
             if r.chance(1, 6) and len(pf) > 65: add(line.replace('#%d ' % m['plen'], '#%d ' % (len(pf) - 1), 1), 'sign_buffer_one_short', 'reject')
     ri2, rm2 = chk.correspond(impl, model, 'verify/info/rewind of library-made proofs', cases=s2)
     # ---- the property clauses asserted directly on the implementation's outputs
@@ -164,7 +167,6 @@ def run(chk):
             if f[0] != '#1': fail(l, a, 'library-made proof verifies'); continue
             mn, mx = int(f[1][1:]), int(f[2][1:])
             if not (0 <= mn <= m['value'] <= mx <= U64): fail(l, a, 'min <= value <= max inside [0,2^64)')
-            i2 = chk_info.get(pf)
             m['range'] = (mn, mx)
         elif e == 'info':
             if f[0] != '#1': fail(l, a, 'info succeeds on a library-made proof'); continue
@@ -198,4 +200,3 @@ def run(chk):
     for (line, cls, m), a in zip(cases, ri):
         k = '%s %s' % (cls, a.split(' ')[0]); acc[k] = acc.get(k, 0) + 1
     chk.extra['sign_result_histogram'] = dict(sorted(acc.items()))
-chk_info = {}
